@@ -29,7 +29,7 @@ func (c03) Plan(tier string) wk.Plan {
 	}
 	return wk.Plan{
 		Level: "exploration", Cases: n, Chunk: 50, Configs: single("seq", 16), CaseBudget: 60,
-		Rule:        "case = one random operator table (1..16 binary spellings over a symbol alphabet incl. multi-character spellings that are prefixes of one another; 0..3 prefix operators, each either also binary - at any position incl. first and last - or pure prefix; optional text aliases; optional if/try keywords) x 40 random expression trees (binary, prefix, calls, index, member, method call, list/map literal, closures, if/try) each rendered fully parenthesised, minimally parenthesised by the property's rules and with random redundant parentheses -> parsed AST must equal the tree; then single-token deletions and insertions of the minimal rendering: the reference parser decides accept/reject (and the tree), the library must agree. A fixed corpus of tables (prefix operator = first/last binary operator) runs first. Non-trivial = expression with >= 2 distinct priorities or a prefix operator; distinct by (table, text).",
+		Rule:        "case = one random operator table (1..16 binary spellings over a symbol alphabet incl. multi-character spellings that are prefixes of one another; 0..3 prefix operators, each either also binary - at any position incl. first and last - or pure prefix; optional text aliases; optional if/try keywords) x 40 random expression trees (binary, prefix, calls, index, member, method call, list/map literal, closures, if/try) each rendered fully parenthesised, minimally parenthesised by the property's rules and with random redundant parentheses -> parsed AST must equal the tree; then single-token deletions, insertions and replacements (by operators, brackets, separators, keywords or another token of the expression) of the minimal rendering: the reference parser decides accept/reject (and the tree), the library must agree. A fixed corpus of tables (prefix operator = first/last binary operator) runs first. Non-trivial = expression with >= 2 distinct priorities or a prefix operator; distinct by (table, text).",
 		Floor:       2000,
 		Assumptions: []string{"tokens are separated by blanks (lexer corner cases are C15's subject)", "the reference parser encodes the accepted trailing comma in argument/list/map lists; string literals are not used (no string converter configured)"},
 	}
@@ -833,6 +833,10 @@ func (c03) Run(c *wk.Case) {
 	muts := []string{"(", ")", "[", "]", ",", "a", "1"}
 	muts = append(muts, t.bin...)
 	muts = append(muts, t.un...)
+	muts = append(muts, ".", "{", "}", ":", "->")
+	if t.keyword {
+		muts = append(muts, "if", "then", "else", "try", "catch")
+	}
 	for e := 0; e < 40; e++ {
 		tree := g.gen(1 + c.Rng.IntN(4))
 		want := tree.normalized()
@@ -865,13 +869,22 @@ func (c03) Run(c *wk.Case) {
 			c.Count("round_trips", 1)
 		}
 		// single-token mutations of the minimal rendering
-		for m := 0; m < 8 && len(minimal) > 0; m++ {
+		for m := 0; m < 12 && len(minimal) > 0; m++ {
 			var toks []string
 			pos := c.Rng.IntN(len(minimal))
-			if c.Rng.IntN(2) == 0 {
+			switch c.Rng.IntN(3) {
+			case 0:
 				toks = append(append([]string{}, minimal[:pos]...), minimal[pos+1:]...)
-			} else {
+			case 1:
 				toks = append(append(append([]string{}, minimal[:pos]...), muts[c.Rng.IntN(len(muts))]), minimal[pos:]...)
+			default:
+				// replacement: another token of the vocabulary (or of the expression itself) in place of one token
+				toks = append([]string{}, minimal...)
+				if c.Rng.IntN(3) == 0 {
+					toks[pos] = minimal[c.Rng.IntN(len(minimal))]
+				} else {
+					toks[pos] = muts[c.Rng.IntN(len(muts))]
+				}
 			}
 			src := strings.Join(toks, " ")
 			rt, rerr := t.refParse(toks, c03scope)
